@@ -19,8 +19,8 @@ TraceFile == IOEnv.TRACE
 OutFile == IOEnv.VERDICT
 Tr == ndJsonDeserialize(TraceFile)
 
-VARIABLES l, heap, bad, cov
-vars == <<l, heap, bad, cov>>
+VARIABLES l, heap, taint, bad, cov
+vars == <<l, heap, taint, bad, cov>>
 
 ---------------------------------------------------------------------------
 FinQ(q) == q[4] < 100000
@@ -120,8 +120,22 @@ Ragged(v) ==
     [] v.t = "S" -> Ragged(v.m0)
     [] v.t = "A" -> Ragged(v.v)
     [] OTHER -> FALSE
+\* positions ("F"irst, "M"iddle, "L"ast) at which some container with >= 3 elements holds an element with ZERO degrees
+\* of freedom (empty inner vector, zero-length VectorXd, ...)
+RECURSIVE ZeroPos(_)
+ZeroPos(v) ==
+  CASE v.t = "V" ->
+         LET n == Len(v.e)
+             here == IF n < 3 THEN {} ELSE {IF i = 1 THEN "F" ELSE IF i = n THEN "L" ELSE "M" : i \in {j \in 1..n : DofV(v.e[j]) = 0}}
+         IN here \cup UNION {ZeroPos(v.e[i]) : i \in 1..n}
+    [] v.t = "W" -> ZeroPos(v.v)
+    [] v.t = "S" -> ZeroPos(v.m0)
+    [] v.t = "A" -> ZeroPos(v.v)
+    [] OTHER -> {}
+ZeroTag(v) == LET z == ZeroPos(v)
+              IN IF z = {} THEN "" ELSE "~z" \o (IF "F" \in z THEN "F" ELSE "") \o (IF "M" \in z THEN "M" ELSE "") \o (IF "L" \in z THEN "L" ELSE "")
 \* coverage / stratum label of a value
-Shp(v) == ShapeStr(v) \o (IF Ragged(v) THEN "~ragged" ELSE "")
+Shp(v) == ShapeStr(v) \o (IF Ragged(v) THEN "~ragged" ELSE "") \o ZeroTag(v)
 DofFail(got, v) == F1("C07.dof", ToString(got), ToString(DofV(v)))
 
 \* largest squared rotation norm over all leaves touched by the tangent a (a has length DofV(v))
@@ -314,12 +328,16 @@ TRt1(e) ==
 TRt2(e) ==
   IF ~Live(e.x) THEN Res(Tool("dead_src"), heap, "-")
   ELSE LET x == heap[Id(e.x)]  m2 == e.m2  q == e.q
-       IN IF ~WellFormed(m2) \/ ~SameShape(m2, x) THEN Res(Tool("shape"), heap, "-")
-          ELSE IF e.op = "rt2" /\ (~Live(e.y) \/ ~SameV(m2, heap[Id(e.y)])) THEN Res(Tool("rt2_operand"), heap, "-")
-          ELSE IF ~FinV(e.d) \/ ~WellFormed(q) THEN Res(F1("C07.rt2", "non-finite or ill-formed", "finite"), heap, "-")
-          ELSE IF Len(e.d) # DofV(x) THEN Res(DofFail(Len(e.d), x), heap, Shp(x))
+       IN \* rt2: m2 is a heap object (an untainted one: same shape as x by construction of the history, else a program error)
+          IF e.op = "rt2" /\ (~Live(e.y) \/ ~WellFormed(m2) \/ ~SameV(m2, heap[Id(e.y)])) THEN Res(Tool("rt2_operand"), heap, "-")
+          ELSE IF e.op = "rt2" /\ ~SameShape(m2, x) THEN Res(Tool("shape"), heap, "-")
+          \* rt2t: m2 = rplus(x, b) was RETURNED BY THE LIBRARY: a wrong shape is a verdict, the rest of the step is skipped
           ELSE IF e.op = "rt2t" /\ ~FinV(e.b) THEN Res(Tool("insane_tangent"), heap, "-")
           ELSE IF e.op = "rt2t" /\ Len(e.b) # DofV(x) THEN Res(DofFail(Len(e.b), x), heap, Shp(x))
+          ELSE IF e.op = "rt2t" /\ ~WellFormed(m2) THEN Res(F1("C07.rt1.rplus", "non-finite or ill-formed result", "finite"), heap, Shp(x))
+          ELSE IF e.op = "rt2t" /\ ~SameShape(m2, x) THEN Res(RplusChk("C07.rt1", x, QV(e.b), m2), heap, Shp(x) \o "|shape")
+          ELSE IF ~FinV(e.d) \/ ~WellFormed(q) THEN Res(F1("C07.rt2", "non-finite or ill-formed", "finite"), heap, "-")
+          ELSE IF Len(e.d) # DofV(x) THEN Res(DofFail(Len(e.d), x), heap, Shp(x))
           ELSE LET d == QV(e.d)
                    f0 == IF e.op = "rt2t" THEN RplusChk("C07.rt1", x, QV(e.b), m2) ELSE <<>>
                    f1 == RminusChk("C07.rt2", m2, x, d, e.wit)
@@ -374,17 +392,34 @@ Frame(e, h) ==
 Adopt(e, h) == IF NoObs(e) THEN h ELSE [k \in DOMAIN e.obs |-> IF k \in DOMAIN h THEN h[k] ELSE e.obs[k]]
 
 ---------------------------------------------------------------------------
-Init == l = 1 /\ heap = <<>> /\ bad = <<>> /\ cov = <<>>
+\* TAINT.  An object whose SHAPE (container size, alternative, fixed dimensions, group) is not the one the
+\* specification demands - because the library returned it so (already reported by the step that created it) - is
+\* marked; steps that use a marked object are skipped (no verdict, no TOOL error), objects created from it are marked
+\* too.  Inputs proposed by the generator / harness are never marked: a malformed input stays a TOOL.* error.
+SrcOf(e) == IF "src" \in DOMAIN e THEN Id(e.src) ELSE "-"
+MakesDst(e) == e.op \in {"copy", "cast", "rplus", "assign"}
+NewTaint(e, skip, h) ==
+  IF e.op = "begin" THEN {}
+  ELSE IF ~MakesDst(e) THEN taint
+  ELSE LET d == Id(e.dst)
+       IN IF skip THEN taint \cup {d}
+          ELSE IF d \in DOMAIN h /\ SrcOf(e) \in DOMAIN heap /\ WellFormed(h[d]) /\ SameShape(h[d], heap[SrcOf(e)])
+               THEN taint \ {d} ELSE taint \cup {d}
+
+Init == l = 1 /\ heap = <<>> /\ taint = {} /\ bad = <<>> /\ cov = <<>>
 
 Next ==
   /\ l <= Len(Tr)
   /\ LET e == Tr[l]
-         r == IF IllFormedOperand(e) THEN Res(<<>>, heap, "illformed-operand") ELSE Step(e)
-         res == r.fails \o Frame(e, r.heap)
+         skip == ~NoObs(e) /\ (IllFormedOperand(e) \/ RefIds(e) \cap taint # {})
+         r == IF skip THEN Res(<<>>, heap, "skipped-operand") ELSE Step(e)
+         res == r.fails \o (IF skip THEN <<>> ELSE Frame(e, r.heap))
+         h2 == IF skip THEN e.obs ELSE Adopt(e, r.heap)        \* a skipped step's objects are adopted as observed
          key == e.op \o "|" \o r.strat
      IN /\ bad' = bad \o [i \in 1..Len(res) |-> [line |-> l, op |-> e.op, stratum |-> r.strat] @@ res[i]]
         /\ cov' = IF key \in DOMAIN cov THEN [cov EXCEPT ![key] = @ + 1] ELSE cov @@ (key :> 1)
-        /\ heap' = Adopt(e, r.heap)
+        /\ heap' = h2
+        /\ taint' = NewTaint(e, skip, h2)
   /\ l' = l + 1
 
 Spec == Init /\ [][Next]_vars
